@@ -133,27 +133,31 @@ func (q Quantity) Negate() Quantity {
 	return Quantity{q.value.Mul(negative), q.unit}
 }
 
-// timeDuration returns the time.Duration represented by
-// a time-valued Quantity. Returns an error if the Quantity
-// doesn't represent a valid time duration.
-func (q Quantity) timeDuration() (time.Duration, error) {
-	value := decimal.Decimal(q.value).IntPart()
+// timeDuration returns the duration represented by a time-valued Quantity,
+// split into whole days and a remainder shorter than a day (both carry the
+// sign of the amount). A time.Duration alone holds about 292 years; split
+// this way an amount of any size is represented exactly. Returns an error
+// if the Quantity doesn't represent a valid time duration.
+func (q Quantity) timeDuration() (int, time.Duration, error) {
+	value := decimal.Decimal(q.value)
 
-	var duration time.Duration
+	var unit time.Duration
+	var perDay int64
 	switch q.unit {
 	case "hour", "hours":
-		duration = time.Hour * time.Duration(value)
+		unit, perDay, value = time.Hour, 24, value.Truncate(0)
 	case "minute", "minutes":
-		duration = time.Minute * time.Duration(value)
+		unit, perDay, value = time.Minute, 24*60, value.Truncate(0)
 	case "second", "seconds":
-		milliseconds := decimal.Decimal(q.value).Truncate(3).Shift(3).IntPart() // Keep decimal precision below seconds; what lies below a millisecond is dropped
-		duration = time.Millisecond * time.Duration(milliseconds)
+		// Keep decimal precision below seconds; what lies below a millisecond is dropped
+		unit, perDay, value = time.Millisecond, 24*60*60*1000, value.Truncate(3).Shift(3)
 	case "millisecond", "milliseconds":
-		duration = time.Millisecond * time.Duration(value)
+		unit, perDay, value = time.Millisecond, 24*60*60*1000, value.Truncate(0)
 	default:
-		return time.Duration(0), fmt.Errorf("%w: not a time-valued unit", ErrMismatchedUnit)
+		return 0, time.Duration(0), fmt.Errorf("%w: not a time-valued unit", ErrMismatchedUnit)
 	}
-	return duration, nil
+	days, rest := value.QuoRem(decimal.NewFromInt(perDay), 0)
+	return int(days.IntPart()), unit * time.Duration(rest.IntPart()), nil
 }
 
 // Converts valid time based quantities to a number of years,
